@@ -162,6 +162,33 @@ fn exhaustive_histories(check: &Check) {
     check.set_extra("exhaustive_histories", json!(total));
 }
 
+/// Chains far longer than the histories above (a client loads dozens of archives): 26 members that all hold
+/// the same names, priorities with long runs of ties, added in list order, through from_archives_parallel
+/// (both list orders) and through a sequential prefix plus add_archives_parallel — earliest added wins ties.
+fn many_members(check: &Check) {
+    for (round, n) in [(0usize, 26usize), (1, 21), (2, 40)] {
+        let specs: Vec<vcheck::gens::mpq::ArchiveSpec> = (0..n).map(|a| chain::member_spec(a, 1 + (a % 2) as u8, 0, &[(0, 0, 1), (2, 0, 0), ((a % 6) as u8, 0, 2)])).collect();
+        let dir = engine::scratch("c08m");
+        let pool: Vec<String> = chain::POOL.iter().map(|s| s.to_string()).collect();
+        let prep = match chain::prepare(&specs, dir.path(), pool) {
+            Ok(p) => p,
+            Err(why) => {
+                check.inconclusive(&format!("members of the long chain are unhealthy: {why}"));
+                return;
+            }
+        };
+        let prios = [0i32, 0, 5, 0, 0, 5, -1, 0];
+        let ops: Vec<Op> = (0..n).map(|a| Op::Add { a: a as u8, prio: prios[(a * (round + 1) + round) % prios.len()] }).collect();
+        let rep = chain::run_history(&prep, &ops, 11 + round as u32, 0, true);
+        check.count(&format!("long-chain:{n}-members"), true);
+        check.bump("chain_probes", rep.probes);
+        for f in &rep.fails {
+            let f2 = Fail::new(format!("long-chain:{}", f.signature), format!("{n} members: {}", f.message));
+            check.fail(&f2, json!({"kind": "long-chain", "members": n, "round": round}));
+        }
+    }
+}
+
 /// Names that differ only in the case of a non-ASCII letter are different MPQ names (the name
 /// hash folds ASCII only). The chain's lookup key uses full Unicode upper-casing.
 fn unicode_canary(check: &Check) {
@@ -523,6 +550,7 @@ fn replay(check: &Check, spec: &Spec, p: &std::path::Path) {
             }
         }
         "chain-names" => unicode_canary(check),
+        "long-chain" => many_members(check),
         "patch" => {
             let case: PatchCase = serde_json::from_value(c["case"].clone()).expect("patch case");
             if let Err(f) = engine::guard("wellformed", || wellformed(check, &case, "replay")).and_then(|x| x) {
@@ -582,6 +610,7 @@ fn main() {
 
     // ---- part 1: chain histories
     exhaustive_histories(&check);
+    many_members(&check);
     unicode_canary(&check);
     pt::run(
         &check,
